@@ -42,13 +42,13 @@ theorem segLoop_intfs {mtu ents sc peer hops intfs m}
   unfold segLoop at h
   unfold consIfaces
   split at h
-  · next hd => cases h; simp [hd]
+  · cases h; simp
   · next hd tl heq =>
     split at h
     · cases h
     · next it hit =>
       cases h
-      simp only [heq, iter_hf hit, Option.map_some, List.reverse_append,
+      simp only [iter_hf hit, Option.map_some, List.reverse_append,
         plainIfaces_reverse_flatMap, iter_intfs hit, ifacesOf_reverse]
       cases sc <;> cases peer <;> simp
 
@@ -59,13 +59,13 @@ theorem segLoop_hops {mtu ents sc peer hops intfs m}
   unfold segLoop at h
   unfold consHops
   split at h
-  · next hd => cases h; simp [hd]
+  · cases h; simp
   · next hd tl heq =>
     split at h
     · cases h
     · next it hit =>
       cases h
-      simp [heq, iter_hf hit]
+      simp [iter_hf hit]
 
 theorem edgeOut_hops {mtu e s m} (h : edgeOut mtu e = .ok (s, m)) :
     consHops e.seg.ents e.sc e.peer = some (if e.kind = .down then s.hops else s.hops.reverse) := by
@@ -138,14 +138,14 @@ theorem segLoop_mtu {mtu ents sc peer hops intfs m}
   unfold segLoop at h
   unfold mtuTerms
   split at h
-  · next hd => cases h; simp [hd]
+  · cases h; simp
   · next hd tl heq =>
     split at h
     · cases h
     · next it hit =>
       cases h
       rw [iter_mtu hit, foldl_plainMtu]
-      simp only [heq, List.foldl_append]
+      simp only [List.foldl_append]
 
 
 theorem upExits_kind {u : Seg} {x} (h : x ∈ upExits u) : x.1.kind = .up ∧ x.1.seg = u := by
